@@ -157,10 +157,15 @@ func (e *Eval) call(fn *ssa.Function, args []Val) []Val {
 		e.Entered[fn.String()] = true
 	}
 	m := e.M
+	loopy := false
 	for _, b := range fn.Blocks {
 		for _, p := range b.Preds {
 			if b.Dominates(p) {
-				unsupported("%s has a loop (block %d): not a loop-free predicate", fn.Name(), b.Index)
+				// a function with loops is evaluated path by path (no merging at
+				// joins), every loop being unrolled as far as its exit conditions
+				// stay satisfiable; the step budget turns unbounded loops into
+				// "unsupported"
+				loopy = true
 			}
 		}
 	}
@@ -220,14 +225,33 @@ func (e *Eval) call(fn *ssa.Function, args []Val) []Val {
 			}
 		}
 	}
-	for _, b := range rpo(fn) {
-		if b != fn.Blocks[0] {
-			r := 0
-			for _, p := range b.Preds {
-				r = m.Or(r, edge[[2]*ssa.BasicBlock{p, b}])
-			}
-			reach[b] = r
+	// constIdx also accepts a computed integer all of whose bits are constants
+	// (the loop counter of an unrolled loop)
+	constIdx := func(v ssa.Value) (int, bool) {
+		if i, ok := constIdx(v); ok {
+			return i, true
 		}
+		x, ok := vals[v]
+		if !ok || x.Kind != KBits || len(x.Bits) == 0 {
+			return 0, false
+		}
+		n := 0
+		for i, b := range x.Bits {
+			switch b {
+			case 0:
+			case 1:
+				if i >= 31 {
+					return 0, false
+				}
+				n |= 1 << uint(i)
+			default:
+				return 0, false
+			}
+		}
+		return n, true
+	}
+	var curPred *ssa.BasicBlock
+	execBlock := func(b *ssa.BasicBlock) {
 		for _, ins := range b.Instrs {
 			switch v := ins.(type) {
 			case *ssa.DebugRef:
@@ -403,6 +427,15 @@ func (e *Eval) call(fn *ssa.Function, args []Val) []Val {
 			case *ssa.BinOp:
 				vals[v] = e.binop(fn, v, get(v.X), get(v.Y))
 			case *ssa.Phi:
+				if curPred != nil {
+					// path mode: the predecessor is known
+					for i, p := range b.Preds {
+						if p == curPred {
+							vals[v] = get(v.Edges[i])
+						}
+					}
+					continue
+				}
 				var out Val
 				first := true
 				for i, ed := range v.Edges {
@@ -467,6 +500,90 @@ func (e *Eval) call(fn *ssa.Function, args []Val) []Val {
 			}
 		}
 	}
+	if !loopy {
+		for _, b := range rpo(fn) {
+			if b != fn.Blocks[0] {
+				r := 0
+				for _, p := range b.Preds {
+					r = m.Or(r, edge[[2]*ssa.BasicBlock{p, b}])
+				}
+				reach[b] = r
+			}
+			execBlock(b)
+		}
+		return results
+	}
+	// path-by-path evaluation
+	steps := 0
+	type cellSnap struct {
+		c   *cell
+		arr [][]int
+		val *Val
+		set bool
+	}
+	snapshot := func() (map[ssa.Value]Val, []cellSnap) {
+		vc := make(map[ssa.Value]Val, len(vals))
+		seen := map[*cell]bool{}
+		var cs []cellSnap
+		for k, v := range vals {
+			vc[k] = v
+			if v.cell != nil && !seen[v.cell] {
+				seen[v.cell] = true
+				cs = append(cs, cellSnap{v.cell, append([][]int(nil), v.cell.arr...), v.cell.val, v.cell.set})
+			}
+		}
+		return vc, cs
+	}
+	var run func(b, pred *ssa.BasicBlock, cond int)
+	run = func(b, pred *ssa.BasicBlock, cond int) {
+		steps++
+		if steps > 20000 {
+			unsupported("%s: loop not bounded within the step budget", fn.Name())
+		}
+		for _, p := range b.Preds {
+			edge[[2]*ssa.BasicBlock{p, b}] = 0
+		}
+		if pred != nil {
+			edge[[2]*ssa.BasicBlock{pred, b}] = cond
+		}
+		reach[b] = cond
+		curPred = pred
+		for _, sc := range b.Succs {
+			edge[[2]*ssa.BasicBlock{b, sc}] = 0
+		}
+		execBlock(b)
+		type out struct {
+			to   *ssa.BasicBlock
+			cond int
+		}
+		var outs []out
+		for i, sc := range b.Succs {
+			if i == 1 && b.Succs[0] == sc {
+				continue
+			}
+			if ec := edge[[2]*ssa.BasicBlock{b, sc}]; ec != 0 {
+				outs = append(outs, out{sc, ec})
+			}
+		}
+		for i, o := range outs {
+			if i == len(outs)-1 {
+				run(o.to, b, o.cond)
+				break
+			}
+			vc, cs := snapshot()
+			run(o.to, b, o.cond)
+			for k := range vals {
+				delete(vals, k)
+			}
+			for k, v := range vc {
+				vals[k] = v
+			}
+			for _, s := range cs {
+				s.c.arr, s.c.val, s.c.set = s.arr, s.val, s.set
+			}
+		}
+	}
+	run(fn.Blocks[0], nil, 1)
 	return results
 }
 
@@ -704,6 +821,24 @@ func (e *Eval) doCall(fn *ssa.Function, v *ssa.Call, get func(ssa.Value) Val) Va
 	if name == "dynamic" {
 		if fv := get(c.Value); fv.Kind == KOpaque {
 			name = "dynamic:" + fv.Name
+		}
+	}
+	if (name == "builtin.len" || name == "builtin.cap") && len(args) == 1 {
+		n := -1
+		switch a := args[0]; a.Kind {
+		case KSlice:
+			n = a.Hi - a.Lo
+		case KArray:
+			n = len(a.Elems)
+		case KArrPtr:
+			n = len(a.cell.arr)
+		case KStr:
+			if name == "builtin.len" {
+				n = len(a.Str)
+			}
+		}
+		if n >= 0 {
+			return e.Const(int64(n), 64, true)
 		}
 	}
 	if callee := c.StaticCallee(); callee != nil && len(callee.Blocks) > 0 && e.InScope != nil && e.InScope(callee) {
